@@ -11,6 +11,7 @@ Fuel-indexed evaluator for the core statement vocabulary (C05, C17): mirrors `ev
   Theorems/C05.lean proves fuel monotonicity, so no statement is bounded by the fuel.
 -/
 import NoulithModel.Impl.CoreAst
+import NoulithModel.Impl.Freeze
 
 namespace Noulith.Core
 
@@ -531,7 +532,16 @@ mutual
           | (false, st2) => (.thrown v, st2)
         | r => r
       | .evalSrc e => eval fuel st env e          -- `eval` runs the parsed text in the calling scope
-      | .freeze e => eval fuel st env e            -- C17 refines this arm (see Impl/Freeze.lean)
+      | .freeze e =>
+        -- `Expr::Freeze`: rewrite with an empty bound set against the current scope, then evaluate the
+        -- rewritten tree in the current scope
+        let look : String → Option Val := fun x =>
+          match st.lookup env x with
+          | some v => some v
+          | none => if builtinNames.contains x then some (.builtin x) else none
+        match freezeExpr look { bound := [], tab := st.frozenTab } e with
+        | .ok (e', fs) => eval fuel { st with frozenTab := fs.tab } env e'
+        | .error _ => (.thrown .err, st)
 
   /-- `Expr::Sequence`: value of the last expression -/
   def evalSeq : Nat → State → Nat → List Expr → Res × State
